@@ -328,4 +328,502 @@ theorem a85decode_body (cs : List Nat) (x : Bytes) : a85decode (a85Body cs x) = 
     simp only [h1, if_true, List.length_append, hj]
     rw [Nat.add_sub_cancel, List.take_left' rfl]
 
+/-! ## Framing: the strip regexes of `ascii85decode` -/
+
+/-- The bytes `a85decode` does not skip. -/
+def core (d : Bytes) : Bytes := d.filter (fun c => !isA85Ignore c)
+
+theorem core_cons_ignore (x : UInt8) (d : Bytes) (h : isA85Ignore x = true) : core (x :: d) = core d := by
+  simp [core, h]
+
+theorem core_cons_keep (x : UInt8) (d : Bytes) (h : isA85Ignore x = false) : core (x :: d) = x :: core d := by
+  simp [core, h]
+
+theorem a85loop_skip (x : UInt8) (h : isA85Ignore x = true) (curr : List Nat) (rest : Bytes) :
+    a85loop curr (x :: rest) = a85loop curr rest := by
+  have hx : x = 32 ∨ x = 9 ∨ x = 10 ∨ x = 13 ∨ x = 11 := by
+    simp only [isA85Ignore, Bool.or_eq_true, beq_iff_eq] at h
+    rcases h with (((h | h) | h) | h) | h <;> simp [h]
+  rcases hx with rfl | rfl | rfl | rfl | rfl <;> simp [a85loop, isA85Ignore]
+
+theorem a85loop_core (d : Bytes) : ∀ curr, a85loop curr d = a85loop curr (core d) := by
+  induction d with
+  | nil => intro curr; rfl
+  | cons x rest ih =>
+    intro curr
+    by_cases hx : isA85Ignore x = true
+    · rw [a85loop_skip x hx, core_cons_ignore x rest hx]; exact ih curr
+    · have hx' : isA85Ignore x = false := by simpa using hx
+      rw [core_cons_keep x rest hx', a85loop, a85loop]
+      simp only [ih]
+
+theorem core_append (a b : Bytes) : core (a ++ b) = core a ++ core b := by simp [core]
+
+theorem a85decode_core (d : Bytes) : a85decode d = a85decode (core d) := by
+  unfold a85decode
+  rw [a85loop_core (d ++ _), a85loop_core (core d ++ _), core_append, core_append]
+  have : core (core d) = core d := by simp [core]
+  rw [this]
+
+theorem ws6_cases (i : Nat) : ws6 i = [] ∨ ∃ w, ws6 i = [w] ∧ isWs w = true ∧ isA85Ignore w = true ∧ w ≠ 126 := by
+  unfold ws6
+  repeat' split
+  all_goals first | (left; rfl) | (right; exact ⟨_, rfl, by decide, by decide, by decide⟩)
+
+theorem dropWhile_ws6 (i : Nat) (l : Bytes) : (ws6 i ++ l).dropWhile isWs = l.dropWhile isWs := by
+  rcases ws6_cases i with h | ⟨w, h, hw, _, _⟩ <;> simp [h, List.dropWhile, *]
+
+theorem dropWhile_ws6_rev (i : Nat) (l : Bytes) : ((ws6 i).reverse ++ l).dropWhile isWs = l.dropWhile isWs := by
+  rcases ws6_cases i with h | ⟨w, h, hw, _, _⟩ <;> simp [h, List.dropWhile, *]
+
+theorem core_ws6 (i : Nat) : core (ws6 i) = [] := by
+  rcases ws6_cases i with h | ⟨w, h, _, hw, _⟩ <;> simp [h, core, *]
+
+theorem mem_takeWhile_true {p : UInt8 → Bool} {l : Bytes} {a : UInt8} (h : a ∈ l.takeWhile p) : p a = true := by
+  induction l with
+  | nil => simp at h
+  | cons x l ih =>
+    by_cases hx : p x = true
+    · simp only [List.takeWhile, hx, List.mem_cons] at h
+      rcases h with rfl | h
+      · exact hx
+      · exact ih h
+    · have hx' : p x = false := by simpa using hx
+      simp [List.takeWhile, hx'] at h
+
+theorem dropWhile_head_false {p : UInt8 → Bool} {l : Bytes} {c : UInt8} {r : Bytes} (h : l.dropWhile p = c :: r) :
+    p c = false := by
+  induction l with
+  | nil => simp at h
+  | cons x l ih =>
+    by_cases hx : p x = true
+    · simp only [List.dropWhile, hx] at h; exact ih h
+    · have hx' : p x = false := by simpa using hx
+      simp only [List.dropWhile, hx', List.cons.injEq] at h
+      rw [← h.1]; exact hx'
+
+def rstrip (d : Bytes) : Bytes := (d.reverse.dropWhile isWs).reverse
+
+theorem rstrip_split (d : Bytes) : ∃ tail, d = rstrip d ++ tail ∧ ∀ c ∈ tail, isWs c = true := by
+  refine ⟨(d.reverse.takeWhile isWs).reverse, ?_, ?_⟩
+  · have := List.takeWhile_append_dropWhile (p := isWs) (l := d.reverse)
+    have h2 := congrArg List.reverse this
+    simp only [List.reverse_append, List.reverse_reverse] at h2
+    exact h2.symm
+  · intro c hc
+    have : c ∈ d.reverse.takeWhile isWs := by simpa using hc
+    exact mem_takeWhile_true this
+
+/-- A byte that may occur around/inside the encoder's output: not `~`, and ignorable if blank. -/
+def A85Ok (c : UInt8) : Prop := c ≠ 126 ∧ (isWs c = true → isA85Ignore c = true)
+
+theorem core_rstrip (d : Bytes) (h : ∀ c ∈ d, A85Ok c) : core (rstrip d) = core d := by
+  obtain ⟨tail, hd, ht⟩ := rstrip_split d
+  have hsub : ∀ c ∈ tail, c ∈ d := by
+    intro c hc; rw [hd]; simp [hc]
+  have hcore : core tail = [] := by
+    simp only [core, List.filter_eq_nil_iff]
+    intro c hc
+    have := (h c (hsub c hc)).2 (ht c hc)
+    simp [this]
+  have := congrArg core hd
+  rw [core_append, hcore, List.append_nil] at this
+  exact this.symm
+
+theorem stripEnd_no_tilde (d : Bytes) (h : ∀ c ∈ d, c ≠ 126) : stripEnd d = d := by
+  have hsub : ∀ c ∈ d.reverse.dropWhile isWs, c ≠ 126 := by
+    intro c hc
+    have : c ∈ d.reverse := List.dropWhile_sublist _ |>.subset hc
+    exact h c (by simpa using this)
+  unfold stripEnd
+  split
+  · rename_i t heq
+    exact absurd rfl (hsub 126 (by rw [heq]; simp))
+  · rename_i t heq
+    split
+    · rename_i t2 heq2
+      have : (126 : UInt8) ∈ t.dropWhile isWs := by rw [heq2]; simp
+      have : (126 : UInt8) ∈ t := List.dropWhile_sublist _ |>.subset this
+      exact absurd rfl (hsub 126 (by rw [heq]; simp [this]))
+    · rfl
+  · rfl
+
+theorem stripEnd_tilde (d : Bytes) (a c : Nat) :
+    stripEnd (d ++ ws6 a ++ [126] ++ ws6 c) = rstrip (d ++ ws6 a) := by
+  unfold stripEnd rstrip
+  have : (d ++ ws6 a ++ [126] ++ ws6 c).reverse = (ws6 c).reverse ++ (126 :: (d ++ ws6 a).reverse) := by simp
+  rw [this, dropWhile_ws6_rev]
+  simp [List.dropWhile, isWs]
+
+theorem stripEnd_tilde_gt (d : Bytes) (a b c : Nat) :
+    stripEnd (d ++ ws6 a ++ [126] ++ ws6 b ++ [62] ++ ws6 c) = rstrip (d ++ ws6 a) := by
+  unfold stripEnd rstrip
+  have : (d ++ ws6 a ++ [126] ++ ws6 b ++ [62] ++ ws6 c).reverse
+      = (ws6 c).reverse ++ (62 :: ((ws6 b).reverse ++ (126 :: (d ++ ws6 a).reverse))) := by simp
+  rw [this, dropWhile_ws6_rev]
+  have h62 : (62 :: ((ws6 b).reverse ++ (126 :: (d ++ ws6 a).reverse))).dropWhile isWs
+      = 62 :: ((ws6 b).reverse ++ (126 :: (d ++ ws6 a).reverse)) := by simp [List.dropWhile, isWs]
+  rw [h62]
+  simp only
+  rw [dropWhile_ws6_rev]
+  simp [List.dropWhile, isWs]
+
+theorem dropLt_ne (c : UInt8) (r : Bytes) (h : c ≠ 60) : dropLt (c :: r) = c :: r := by
+  unfold dropLt
+  split
+  · rename_i t heq
+    simp only [List.cons.injEq] at heq
+    exact (h heq.1).elim
+  · rfl
+
+theorem dropLt_lt (r : Bytes) : dropLt (60 :: r) = r := rfl
+
+theorem dropLt_nil : dropLt [] = [] := rfl
+
+theorem stripStart_stop (d : Bytes) (c : UInt8) (r : Bytes)
+    (h : (dropLt (d.dropWhile isWs)).dropWhile isWs = c :: r) (h126 : c ≠ 126) : stripStart d = d := by
+  unfold stripStart
+  rw [h]
+  split
+  · rename_i t heq
+    simp only [List.cons.injEq] at heq
+    exact (h126 heq.1).elim
+  · rfl
+
+/-- No `~` where the start pattern wants it: nothing is stripped. -/
+theorem stripStart_none (d : Bytes) (c : UInt8) (r : Bytes) (hd : d.dropWhile isWs = c :: r) (h60 : c ≠ 60)
+    (h126 : c ≠ 126) : stripStart d = d := by
+  have hws : isWs c = false := dropWhile_head_false hd
+  apply stripStart_stop d c r _ h126
+  rw [hd, dropLt_ne c r h60]
+  simp [List.dropWhile, hws]
+
+theorem stripStart_lt (d : Bytes) (c1 : UInt8) (r : Bytes) (hd : d.dropWhile isWs = 60 :: c1 :: r)
+    (hws : isWs c1 = false) (h126 : c1 ≠ 126) : stripStart d = d := by
+  apply stripStart_stop d c1 r _ h126
+  rw [hd, dropLt_lt]
+  simp [List.dropWhile, hws]
+
+theorem stripStart_allws (d : Bytes) (hd : d.dropWhile isWs = []) : stripStart d = d := by
+  unfold stripStart
+  rw [hd, dropLt_nil]
+  rfl
+
+theorem stripStart_tilde (a : Nat) (rest : Bytes) :
+    stripStart (ws6 a ++ [126] ++ rest) = rest.dropWhile isWs := by
+  unfold stripStart
+  have : (ws6 a ++ [126] ++ rest).dropWhile isWs = 126 :: rest := by
+    rw [List.append_assoc, dropWhile_ws6]; simp [List.dropWhile, isWs]
+  rw [this, dropLt_ne 126 rest (by decide)]
+  simp [List.dropWhile, isWs]
+
+theorem stripStart_lt_tilde (a b : Nat) (rest : Bytes) :
+    stripStart (ws6 a ++ [60] ++ ws6 b ++ [126] ++ rest) = rest.dropWhile isWs := by
+  unfold stripStart
+  have : (ws6 a ++ [60] ++ ws6 b ++ [126] ++ rest).dropWhile isWs = 60 :: (ws6 b ++ 126 :: rest) := by
+    simp only [List.append_assoc]
+    rw [dropWhile_ws6]; simp [List.dropWhile, isWs]
+  rw [this, dropLt_lt, dropWhile_ws6]
+  simp [List.dropWhile, isWs]
+
+/-! ### Shape of the encoder's body -/
+
+theorem isWs_toNat_le (c : UInt8) (h : isWs c = true) : c.toNat ≤ 32 := by
+  simp only [isWs, Bool.or_eq_true, beq_iff_eq] at h
+  rcases h with ((((h | h) | h) | h) | h) | h <;> (rw [h]; decide)
+
+theorem digit_props (d : Nat) (hd : d < 85) :
+    isWs (UInt8.ofNat (d + 33)) = false ∧ UInt8.ofNat (d + 33) ≠ 126 ∧ A85Ok (UInt8.ofNat (d + 33)) := by
+  have ht := toNat_ofNat_lt (d + 33) (by omega)
+  have hws : isWs (UInt8.ofNat (d + 33)) = false := by
+    cases h : isWs (UInt8.ofNat (d + 33)) with
+    | false => rfl
+    | true => have := isWs_toNat_le _ h; omega
+  have hne : UInt8.ofNat (d + 33) ≠ 126 := by
+    intro h
+    have := congrArg UInt8.toNat h
+    rw [ht] at this
+    have h126 : (126 : UInt8).toNat = 126 := rfl
+    omega
+  exact ⟨hws, hne, hne, fun h => by rw [hws] at h; cases h⟩
+
+theorem a85digits_mem_ok (v : Nat) : ∀ c ∈ a85digits v, A85Ok c := by
+  intro c hc
+  simp only [a85digits, List.mem_cons, List.not_mem_nil, or_false] at hc
+  rcases hc with rfl | rfl | rfl | rfl | rfl
+  all_goals exact (digit_props _ (Nat.mod_lt _ (by omega))).2.2
+
+theorem ws6_mem_ok (i : Nat) : ∀ c ∈ ws6 i, A85Ok c := by
+  intro c hc
+  rcases ws6_cases i with h | ⟨w, h, _, hw, hne⟩
+  · rw [h] at hc; simp at hc
+  · rw [h] at hc
+    simp only [List.mem_singleton] at hc
+    subst hc
+    exact ⟨hne, fun _ => hw⟩
+
+theorem z_ok : A85Ok 122 := ⟨by decide, by decide⟩
+
+theorem a85Body_mem_ok (cs : List Nat) (x : Bytes) : ∀ c ∈ a85Body cs x, A85Ok c := by
+  fun_induction a85Body cs x with
+  | case1 cs a b c d rest ih =>
+    intro e he
+    simp only [List.mem_append] at he
+    rcases he with (he | he) | he
+    · split at he
+      · simp only [List.mem_singleton] at he; subst he; exact z_ok
+      · exact a85digits_mem_ok _ e he
+    · exact ws6_mem_ok _ e he
+    · exact ih e he
+  | case2 cs a b c =>
+    intro e he
+    simp only [List.mem_append] at he
+    rcases he with he | he
+    · exact a85digits_mem_ok _ e (List.mem_of_mem_take he)
+    · exact ws6_mem_ok _ e he
+  | case3 cs a b =>
+    intro e he
+    simp only [List.mem_append] at he
+    rcases he with he | he
+    · exact a85digits_mem_ok _ e (List.mem_of_mem_take he)
+    · exact ws6_mem_ok _ e he
+  | case4 cs a =>
+    intro e he
+    simp only [List.mem_append] at he
+    rcases he with he | he
+    · exact a85digits_mem_ok _ e (List.mem_of_mem_take he)
+    · exact ws6_mem_ok _ e he
+  | case5 cs => intro e he; simp at he
+
+/-- A non-empty body starts with a digit or `z`; if it starts with `<` (which is a digit) the next
+byte is a digit too - so `start_re` cannot match inside the data. -/
+theorem a85Body_head (cs : List Nat) (x : Bytes) (hx : x ≠ []) :
+    ∃ c0 r, a85Body cs x = c0 :: r ∧ isWs c0 = false ∧ c0 ≠ 126 ∧
+      (c0 = 60 → ∃ c1 r', r = c1 :: r' ∧ isWs c1 = false ∧ c1 ≠ 126) := by
+  have dp := fun v k => digit_props (v / k % 85) (Nat.mod_lt _ (by omega))
+  match x, hx with
+  | [a], _ =>
+    refine ⟨_, _, by simp only [a85Body, a85digits, List.take, List.cons_append]; rfl, (dp _ _).1, (dp _ _).2.1, ?_⟩
+    intro _
+    exact ⟨_, _, rfl, (dp _ _).1, (dp _ _).2.1⟩
+  | [a, b], _ =>
+    refine ⟨_, _, by simp only [a85Body, a85digits, List.take, List.cons_append]; rfl, (dp _ _).1, (dp _ _).2.1, ?_⟩
+    intro _
+    exact ⟨_, _, rfl, (dp _ _).1, (dp _ _).2.1⟩
+  | [a, b, c], _ =>
+    refine ⟨_, _, by simp only [a85Body, a85digits, List.take, List.cons_append]; rfl, (dp _ _).1, (dp _ _).2.1, ?_⟩
+    intro _
+    exact ⟨_, _, rfl, (dp _ _).1, (dp _ _).2.1⟩
+  | a :: b :: c :: d :: rest, _ =>
+    by_cases hz : (be32val a b c d == 0 && hd0 cs % 2 == 1) = true
+    · refine ⟨122, _, by simp only [a85Body, hz, if_true, List.cons_append, List.nil_append]; rfl, by decide, by decide, ?_⟩
+      intro h; exact absurd h (by decide)
+    · refine ⟨_, _, by simp only [a85Body, hz, Bool.false_eq_true, if_false, a85digits, List.cons_append]; rfl,
+        (dp _ _).1, (dp _ _).2.1, ?_⟩
+      intro _
+      exact ⟨_, _, rfl, (dp _ _).1, (dp _ _).2.1⟩
+
+/-! ### Assembly -/
+
+theorem core_eq_decode {d e : Bytes} (h : core d = core e) : a85decode d = a85decode e := by
+  rw [a85decode_core d, a85decode_core e, h]
+
+/-- End stripping: for data `d` without `~` whose blanks are ignorable, followed by any of the EOD
+forms, what remains decodes like `d`. -/
+theorem stripEnd_post (d : Bytes) (hd : ∀ c ∈ d, A85Ok c) (m a b c : Nat) :
+    core (stripEnd (d ++ a85Post m a b c)) = core d := by
+  have hok : ∀ e ∈ d ++ ws6 (a % 6), A85Ok e := by
+    intro e he
+    rcases List.mem_append.mp he with he | he
+    · exact hd e he
+    · exact ws6_mem_ok _ e he
+  have hcore : core (d ++ ws6 (a % 6)) = core d := by rw [core_append, core_ws6, List.append_nil]
+  unfold a85Post
+  by_cases h0 : m = 0
+  · subst h0
+    simp only [beq_self_eq_true, if_true]
+    rw [stripEnd_no_tilde _ (fun e he => (hok e he).1), hcore]
+  · have e0 : (m == 0) = false := by simp [h0]
+    by_cases h1 : m = 1
+    · subst h1
+      simp only [e0, Bool.false_eq_true, if_false, beq_self_eq_true, if_true]
+      have : d ++ (ws6 (a % 6) ++ [126] ++ ws6 (c % 6)) = d ++ ws6 (a % 6) ++ [126] ++ ws6 (c % 6) := by simp
+      rw [this, stripEnd_tilde, core_rstrip _ hok, hcore]
+    · have e1 : (m == 1) = false := by simp [h1]
+      simp only [e0, e1, Bool.false_eq_true, if_false]
+      have : d ++ (ws6 (a % 6) ++ [126] ++ ws6 (b % 6) ++ [62] ++ ws6 (c % 6))
+          = d ++ ws6 (a % 6) ++ [126] ++ ws6 (b % 6) ++ [62] ++ ws6 (c % 6) := by simp
+      rw [this, stripEnd_tilde_gt, core_rstrip _ hok, hcore]
+
+theorem dropWhile_post (m a b c : Nat) :
+    (a85Post m a b c).dropWhile isWs = [] ∨
+    (a85Post m a b c).dropWhile isWs = [] ++ ws6 0 ++ [126] ++ ws6 (c % 6) ∨
+    (a85Post m a b c).dropWhile isWs = [] ++ ws6 0 ++ [126] ++ ws6 (b % 6) ++ [62] ++ ws6 (c % 6) := by
+  unfold a85Post
+  by_cases h0 : m = 0
+  · left
+    subst h0
+    simp only [beq_self_eq_true, if_true]
+    have := dropWhile_ws6 (a % 6) []
+    simpa using this
+  · have e0 : (m == 0) = false := by simp [h0]
+    by_cases h1 : m = 1
+    · right; left
+      subst h1
+      simp only [e0, Bool.false_eq_true, if_false, beq_self_eq_true, if_true, List.append_assoc]
+      rw [dropWhile_ws6]
+      simp [List.dropWhile, isWs, ws6]
+    · right; right
+      have e1 : (m == 1) = false := by simp [h1]
+      simp only [e0, e1, Bool.false_eq_true, if_false, List.append_assoc]
+      rw [dropWhile_ws6]
+      simp [List.dropWhile, isWs, ws6]
+
+theorem rstrip_nil : rstrip ([] ++ ws6 0) = [] := by decide
+
+/-- The empty payload: whatever framing, the result decodes to nothing.  (Includes the quirk that
+for `~>` without a leading `<~` the start pattern eats the `~` and `>` is decoded as a lone digit.) -/
+theorem decode_strip_post (m a b c : Nat) :
+    a85decode (stripEnd ((a85Post m a b c).dropWhile isWs)) = .ok [] := by
+  rcases dropWhile_post m a b c with h | h | h
+  · rw [h]; decide
+  · rw [h, stripEnd_tilde, rstrip_nil]; decide
+  · rw [h, stripEnd_tilde_gt, rstrip_nil]; decide
+
+theorem a85decode_gt_ws (i : Nat) : a85decode ([62] ++ ws6 i) = .ok [] := by
+  rw [a85decode_core, core_append, core_ws6]
+  decide
+
+theorem ascii85_empty_mode0 (a m' a' b' c' : Nat) :
+    ascii85decode (ws6 a ++ a85Post m' a' b' c') = .ok [] := by
+  unfold ascii85decode a85Post
+  by_cases h0 : m' = 0
+  · subst h0
+    simp only [beq_self_eq_true, if_true]
+    have hall : (ws6 a ++ ws6 (a' % 6)).dropWhile isWs = [] := by
+      rw [dropWhile_ws6]; have := dropWhile_ws6 (a' % 6) []; simpa using this
+    have hok : ∀ e ∈ ws6 a ++ ws6 (a' % 6), e ≠ 126 := by
+      intro e he
+      rcases List.mem_append.mp he with he | he <;> exact (ws6_mem_ok _ e he).1
+    rw [stripStart_allws _ hall, stripEnd_no_tilde _ hok, a85decode_core, core_append, core_ws6, core_ws6]
+    decide
+  · have e0 : (m' == 0) = false := by simp [h0]
+    by_cases h1 : m' = 1
+    · subst h1
+      simp only [e0, Bool.false_eq_true, if_false, beq_self_eq_true, if_true]
+      have hs : stripStart (ws6 a ++ (ws6 (a' % 6) ++ [126] ++ ws6 (c' % 6))) = [] := by
+        unfold stripStart
+        have : (ws6 a ++ (ws6 (a' % 6) ++ [126] ++ ws6 (c' % 6))).dropWhile isWs = 126 :: ws6 (c' % 6) := by
+          simp only [List.append_assoc]
+          rw [dropWhile_ws6, dropWhile_ws6]; simp [List.dropWhile, isWs]
+        rw [this, dropLt_ne 126 _ (by decide)]
+        have h2 : (126 :: ws6 (c' % 6)).dropWhile isWs = 126 :: ws6 (c' % 6) := by simp [List.dropWhile, isWs]
+        rw [h2]
+        have := dropWhile_ws6 (c' % 6) []
+        simpa using this
+      rw [hs]; decide
+    · have e1 : (m' == 1) = false := by simp [h1]
+      simp only [e0, e1, Bool.false_eq_true, if_false]
+      have hs : stripStart (ws6 a ++ (ws6 (a' % 6) ++ [126] ++ ws6 (b' % 6) ++ [62] ++ ws6 (c' % 6)))
+          = [62] ++ ws6 (c' % 6) := by
+        unfold stripStart
+        have : (ws6 a ++ (ws6 (a' % 6) ++ [126] ++ ws6 (b' % 6) ++ [62] ++ ws6 (c' % 6))).dropWhile isWs
+            = 126 :: (ws6 (b' % 6) ++ ([62] ++ ws6 (c' % 6))) := by
+          simp only [List.append_assoc]
+          rw [dropWhile_ws6, dropWhile_ws6]; simp [List.dropWhile, isWs]
+        rw [this, dropLt_ne 126 _ (by decide)]
+        have h2 : (126 :: (ws6 (b' % 6) ++ ([62] ++ ws6 (c' % 6)))).dropWhile isWs
+            = 126 :: (ws6 (b' % 6) ++ ([62] ++ ws6 (c' % 6))) := by simp [List.dropWhile, isWs]
+        rw [h2]
+        simp only
+        rw [dropWhile_ws6]
+        simp [List.dropWhile, isWs]
+      have hok : ∀ e ∈ [62] ++ ws6 (c' % 6), e ≠ 126 := by
+        intro e he
+        rcases List.mem_append.mp he with he | he
+        · simp only [List.mem_singleton] at he; subst he; decide
+        · exact (ws6_mem_ok _ e he).1
+      rw [hs, stripEnd_no_tilde _ hok, a85decode_gt_ws]
+
+/-- `ascii85decode` inverts the framed encoder. -/
+theorem ascii85decode_a85Enc (cs : List Nat) (pre post : Nat × Nat × Nat × Nat) (x : Bytes) :
+    ascii85decode (a85Enc cs pre post x) = .ok x := by
+  obtain ⟨m, a, b, c⟩ := pre
+  obtain ⟨m', a', b', c'⟩ := post
+  unfold a85Enc
+  simp only
+  have hB := a85Body_mem_ok cs x
+  by_cases hx : x = []
+  · -- empty payload
+    subst hx
+    have hb : a85Body cs [] = [] := by simp [a85Body]
+    rw [hb, List.append_nil]
+    unfold a85Pre
+    by_cases h0 : m = 0
+    · subst h0
+      simp only [beq_self_eq_true, if_true]
+      exact ascii85_empty_mode0 _ _ _ _ _
+    · have e0 : (m == 0) = false := by simp [h0]
+      by_cases h1 : m = 1
+      · subst h1
+        simp only [e0, Bool.false_eq_true, if_false, beq_self_eq_true, if_true]
+        unfold ascii85decode
+        have : ws6 (a % 6) ++ [126] ++ ws6 (c % 6) ++ a85Post m' a' b' c'
+            = ws6 (a % 6) ++ [126] ++ (ws6 (c % 6) ++ a85Post m' a' b' c') := by simp
+        rw [this, stripStart_tilde, dropWhile_ws6]
+        exact decode_strip_post _ _ _ _
+      · have e1 : (m == 1) = false := by simp [h1]
+        simp only [e0, e1, Bool.false_eq_true, if_false]
+        unfold ascii85decode
+        have : ws6 (a % 6) ++ [60] ++ ws6 (b % 6) ++ [126] ++ ws6 (c % 6) ++ a85Post m' a' b' c'
+            = ws6 (a % 6) ++ [60] ++ ws6 (b % 6) ++ [126] ++ (ws6 (c % 6) ++ a85Post m' a' b' c') := by simp
+        rw [this, stripStart_lt_tilde, dropWhile_ws6]
+        exact decode_strip_post _ _ _ _
+  · -- non-empty payload
+    obtain ⟨c0, r, hbody, hws0, h126, hlt⟩ := a85Body_head cs x hx
+    have hdw : ∀ post : Bytes, (a85Body cs x ++ post).dropWhile isWs = a85Body cs x ++ post := by
+      intro post; rw [hbody]; simp [List.dropWhile, hws0]
+    have hfinal : ∀ d : Bytes, core d = core (a85Body cs x) → a85decode d = .ok x := by
+      intro d hd
+      rw [core_eq_decode hd]; exact a85decode_body cs x
+    unfold ascii85decode a85Pre
+    by_cases h0 : m = 0
+    · subst h0
+      simp only [beq_self_eq_true, if_true]
+      have hns : stripStart (ws6 (a % 6) ++ a85Body cs x ++ a85Post m' a' b' c')
+          = ws6 (a % 6) ++ a85Body cs x ++ a85Post m' a' b' c' := by
+        have hd : (ws6 (a % 6) ++ a85Body cs x ++ a85Post m' a' b' c').dropWhile isWs
+            = c0 :: (r ++ a85Post m' a' b' c') := by
+          rw [List.append_assoc, dropWhile_ws6, hdw, hbody]; rfl
+        by_cases h60 : c0 = 60
+        · obtain ⟨c1, r', hr, hws1, h1⟩ := hlt h60
+          subst h60 hr
+          exact stripStart_lt _ c1 (r' ++ a85Post m' a' b' c') hd hws1 h1
+        · exact stripStart_none _ c0 _ hd h60 h126
+      rw [hns]
+      apply hfinal
+      have hok : ∀ e ∈ ws6 (a % 6) ++ a85Body cs x, A85Ok e := by
+        intro e he
+        rcases List.mem_append.mp he with he | he
+        · exact ws6_mem_ok _ e he
+        · exact hB e he
+      rw [stripEnd_post _ hok, core_append, core_ws6, List.nil_append]
+    · have e0 : (m == 0) = false := by simp [h0]
+      by_cases h1 : m = 1
+      · subst h1
+        simp only [e0, Bool.false_eq_true, if_false, beq_self_eq_true, if_true]
+        have : ws6 (a % 6) ++ [126] ++ ws6 (c % 6) ++ a85Body cs x ++ a85Post m' a' b' c'
+            = ws6 (a % 6) ++ [126] ++ (ws6 (c % 6) ++ (a85Body cs x ++ a85Post m' a' b' c')) := by simp
+        rw [this, stripStart_tilde, dropWhile_ws6, hdw]
+        apply hfinal
+        rw [stripEnd_post _ hB]
+      · have e1 : (m == 1) = false := by simp [h1]
+        simp only [e0, e1, Bool.false_eq_true, if_false]
+        have : ws6 (a % 6) ++ [60] ++ ws6 (b % 6) ++ [126] ++ ws6 (c % 6) ++ a85Body cs x ++ a85Post m' a' b' c'
+            = ws6 (a % 6) ++ [60] ++ ws6 (b % 6) ++ [126] ++ (ws6 (c % 6) ++ (a85Body cs x ++ a85Post m' a' b' c')) := by
+          simp
+        rw [this, stripStart_lt_tilde, dropWhile_ws6, hdw]
+        apply hfinal
+        rw [stripEnd_post _ hB]
+
 end PdfVerif.Filters
